@@ -104,6 +104,27 @@ func RunDaemonCase(c Case, baseDir string, d DaemonCfg) (evs []Event) {
 		r.closeApp()
 		os.RemoveAll(r.dir)
 	}()
+	// control run (no litestream at all): application-visible content after every step of the same application history
+	var ctl []int
+	if c.Cfg.Control {
+		cr := &Runner{c: c, dir: dir + "-ctl", dbPath: dir + "-ctl/db", repDir: dir + "-ctl/replica", tmp: dir + "-ctl/tmp", dict: dict,
+			seenL0: map[string]bool{}, seenRem: map[string]bool{}, ctx: context.Background()}
+		os.RemoveAll(cr.dir)
+		if err := cr.setup(); err == nil {
+			for _, st := range c.Sched {
+				if strings.HasPrefix(argStr(st, 0, ""), "App") {
+					cr.Step(st, true)
+				}
+				app, _, _, _, err := AppContent(cr.app, dict)
+				if err != nil {
+					app = -1
+				}
+				ctl = append(ctl, app)
+			}
+		}
+		cr.closeApp()
+		os.RemoveAll(cr.dir)
+	}
 	ev := blank(c, 0)
 	ev.Op = "Reset"
 	if err := r.setup(); err != nil {
@@ -112,6 +133,7 @@ func RunDaemonCase(c Case, baseDir string, d DaemonCfg) (evs []Event) {
 	}
 	r.daemonObserve(&ev)
 	evs = append(evs, ev)
+	same := true // the application history of this run is still the one of the control run (no operation refused as busy)
 	for i, st := range c.Sched {
 		ev := blank(c, i+1)
 		ev.Op, ev.Arg, ev.N = argStr(st, 0, ""), argStr(st, 1, ""), argInt(st, 1, 0)
@@ -162,6 +184,12 @@ func RunDaemonCase(c Case, baseDir string, d DaemonCfg) (evs []Event) {
 			ev.Rest = r.Restore(0, time.Time{})
 		}
 		r.daemonObserve(&ev)
+		if strings.HasPrefix(ev.Op, "App") && ev.Op != "AppCheckpoint" && ev.Res != "ok" {
+			same = false
+		}
+		if same && i < len(ctl) {
+			ev.Ctl = ctl[i]
+		}
 		evs = append(evs, ev)
 	}
 	return evs
